@@ -40,6 +40,8 @@ def types_cover(F):
                                 if sub.get("k") == "Binding":
                                     bound[fname] = sub["hid"]
                             refs = _effective_refs(label, arm, leaf)
+                            if label == "encode_type":
+                                refs = refs | _escaping_refs(fn["body"], m, arm)
                             todo = diverges(arm["body"])
                             per_variant.setdefault(leaf["variant"], (set(), todo))
                             per_variant[leaf["variant"]] = ({f for f, h in bound.items() if h in refs}, todo)
@@ -117,6 +119,31 @@ def _effective_refs(label, arm, leaf):
     for c in walk(body):
         if c.get("k") in ("Call", "MethodCall", "Struct"):
             out |= _local_hids(c)
+    return out
+
+
+def _escaping_refs(body, m, arm):
+    """Bindings of the arm that leave the match as (components of) its value and are used in a call / struct literal
+    afterwards: `let (a, b) = match ty { V { x, y } => (x, y), .. }; f(a, b)`."""
+    out = set()
+    dest = None
+    for st in walk(body):
+        if st.get("k") == "Let" and "init" in st and peel(st["init"]) is m:
+            dest = st["pat"]
+    if dest is None:
+        return out
+    used_later = set()
+    inside = {id(x) for x in walk(m)}
+    for c in walk(body):
+        if c.get("k") in ("Call", "MethodCall", "Struct") and id(c) not in inside:
+            used_later |= _local_hids(c)
+    for tv in _tail_values(arm["body"]):
+        if tv.get("k") == "Tup" and dest.get("k") == "Tuple" and len(tv["elems"]) == len(dest["pats"]):
+            for el, dp in zip(tv["elems"], dest["pats"]):
+                if any(b.get("k") == "Binding" and b["hid"] in used_later for b in walk(dp)):
+                    out |= _local_hids(el)
+        elif dest.get("k") == "Binding" and dest["hid"] in used_later:
+            out |= _local_hids(tv)
     return out
 
 
